@@ -150,9 +150,13 @@ fn main() {
     install_panic_hook(replay);
     install_logger(replay && std::env::var("PBMON_LOG").is_ok());
 
-    if let Err(e) = refcodec::selfcheck() {
-        eprintln!("HARNESS ERROR: reference codec self-check failed: {}", e);
-        std::process::exit(2);
+    // (under the Miri interpreter the self-check alone takes minutes; the native run of the same
+    //  sources, which always precedes a Miri leg, has done it)
+    if tier != Tier::Miri {
+        if let Err(e) = refcodec::selfcheck() {
+            eprintln!("HARNESS ERROR: reference codec self-check failed: {}", e);
+            std::process::exit(2);
+        }
     }
 
     let mut ctx = Ctx {
